@@ -30,21 +30,32 @@ def is_header(line):
 
 @st.composite
 def hunk_st(draw, max_body=8):
-    n = draw(st.integers(0, max_body))
-    kinds = draw(st.lists(st.sampled_from([' ', ' ', '+', '-', '+', '-',
-                                           'marker']),
-                          min_size=n, max_size=n))
-    body = []
+    if draw(st.integers(0, 14)) == 0:
+        # a big hunk (a whole new or deleted file, a long rewrite)
+        n = draw(st.sampled_from([99, 100, 101, 127, 128, 250, 1000]))
+        shape = draw(st.sampled_from(['+', '+', '-', ' ', 'mix']))
+        body = []
 
-    for k in kinds:
-        if k == 'marker':
-            body.append(['marker', MARKER])
-        else:
-            body.append([k, draw(st.sampled_from(PAYLOADS))])
+        for i in range(n):
+            k = shape if shape != 'mix' else ' +-'[(i * 7 + n) % 3]
+            body.append([k, b'l%d' % i])
+    else:
+        n = draw(st.integers(0, max_body))
+        kinds = draw(st.lists(st.sampled_from([' ', ' ', '+', '-', '+', '-',
+                                               'marker']),
+                              min_size=n, max_size=n))
+        body = []
+
+        for k in kinds:
+            if k == 'marker':
+                body.append(['marker', MARKER])
+            else:
+                body.append([k, draw(st.sampled_from(PAYLOADS))])
 
     return {
         'orig_start': draw(st.sampled_from([0, 1, 1, 2, 10, 164, 99999])),
-        'mod_start': draw(st.sampled_from([0, 1, 1, 3, 10, 170, 100001])),
+        'mod_start': draw(st.sampled_from([0, 1, 1, 2, 3, 10, 164, 170,
+                                           100001])),
         'body': body,
         'context': draw(st.sampled_from([None, None, b'def f():', b'',
                                          b'@@ nested @@', b'class X:'])),
